@@ -27,7 +27,7 @@ W == 1..NW
 None == 0 - 1
 
 VARIABLES phase,    \* "running" | "updating" | "loading" | "archiving"   (life cycle as the farm sees it)
-          gitrev,   \* pipeline revision
+          gitrev,   \* pipeline revision: GROUND TRUTH = HEAD of the engine checkout when the pipeline (re)loaded it last
           pend,     \* [Alg -> SUBSET Targets]   node 'todo'
           exec,     \* [Alg -> SUBSET Targets]   released and not yet answered (live)
           rid,      \* [Alg -> Int]              node 'runid' (None = -1)
@@ -179,7 +179,10 @@ Update ==                               \* update_trigger: running -> updating (
     /\ wrote' = {} /\ drew' = {}
     /\ UNCHANGED <<gitrev, pend, exec, rid, cluster, idle, wk, fly, stored, archive, runs>>
 
-RevChange(r) ==
+RevChange(r) ==                         \* the update moves the engine checkout to commit r (gitting) and FSM._reload re-reads
+                                        \* the revision FROM THE CHECKOUT (context._rev): the pipeline's current software
+                                        \* revision is, from here on, the HEAD of the checkout -- ground truth, whatever any
+                                        \* attribute or remembered answer says
     /\ phase = "updating"
     /\ gitrev' = r
     /\ wrote' = {} /\ drew' = {}
